@@ -71,7 +71,9 @@ def alive_together(chk, da, rng):
                     a = mk()
                     solo[label] = (a.chunks, a.compute(scheduler="sync"))
             except Exception as e:  # noqa: BLE001
-                chk.count("together:skipped:" + type(e).__name__)
+                chk.count("together:raises:" + type(e).__name__)
+                chk.violation(f"a seeded random array cannot be computed: {type(e).__name__}: {str(e)[:80]}", {"dist": dname, "seed": seed, "size": size, "member": label},
+                              signature={"class": "random-raises", "kind": label.split("(")[0], "error": type(e).__name__})
             a = None
             gc.collect()
         alive = []
@@ -181,7 +183,11 @@ def run(chk: Check):
                 x = make()
                 v = x.compute(scheduler="sync")
         except Exception as e:  # noqa: BLE001
-            chk.count("skipped:raises:" + type(e).__name__)
+            # every (kind, distribution) pair of this family computes on the unchanged tree: a raise means the values are not
+            # reproducible from the seed any more (there are none)
+            chk.count("raises:" + type(e).__name__)
+            chk.violation(f"a seeded random array cannot be computed: {type(e).__name__}: {str(e)[:80]}", desc,
+                          signature={"class": "random-raises", "kind": kind.split(":")[0], "error": type(e).__name__})
             continue
         nblocks = int(np.prod([len(c) for c in chunks]))
         chk.case(("rand", kind, dname, seed, shape, chunks), nontrivial=nblocks > 1, sample=desc if it < 4 else None)
